@@ -103,16 +103,19 @@ def dense_assembly(ctx, graph, mode, bias):
 
 
 @contract('C12', 'storage_and_psd_native', level='bounded', native_samples=2, tol=1e-5,
-          configs=[dict(graph=g, mode=m, bias=b, dtype=dt, ncomp=nc, fpv=fpv) for g in ('edgeless4', 'chain4', 'cycle4', 'tree5', 'isolated6', 'directed4')
+          configs=[dict(graph=g, mode=m, bias=b, dtype=dt, ncomp=nc, fpv=fpv, backed=bk) for g in ('edgeless4', 'chain4', 'cycle4', 'tree5', 'isolated6', 'directed4')
                    for m in ('concatenation', 'subtraction') for b in (0, 1) for dt in ('float64', 'float32') for nc in (None, 2) for fpv in (1, 2, 3)
-                   if not (nc == 2 and (dt == 'float32' or fpv != 2)) and not (fpv == 3 and (dt == 'float32' or b == 1))],
+                   for bk in ('vector', 'pointcloud')
+                   if not (nc == 2 and (dt == 'float32' or fpv != 2)) and not (fpv == 3 and (dt == 'float32' or b == 1))
+                   and not (bk == 'pointcloud' and (fpv != 2 or g in ('cycle4', 'tree5')))],
           functions=['menpo.model.gmrf:_create_sparse_precision', 'menpo.model.gmrf:_create_sparse_diagonal_precision',
                      'menpo.model.gmrf:GMRFVectorModel.mahalanobis_distance'])
-def storage_and_psd_native(ctx, graph, mode, bias, dtype, ncomp, fpv=2):
+def storage_and_psd_native(ctx, graph, mode, bias, dtype, ncomp, fpv=2, backed='vector'):
     """bounded stand-in: sparse == dense storage, == independent edge-sum
     reference, symmetric, PSD (eigenvalues >= -eps), graph-sparse, Mahalanobis
     non-negative / zero at mean / sparse == dense / single == batched, mean."""
-    from menpo.model import GMRFVectorModel
+    from menpo.model import GMRFVectorModel, GMRFModel
+    from menpo.shape import PointCloud
     rs = ctx.nprng
     G = _graphs()[graph]
     n = 25
@@ -121,8 +124,26 @@ def storage_and_psd_native(ctx, graph, mode, bias, dtype, ncomp, fpv=2):
     X = (X + 0.4 * np.roll(X, 1, axis=1)).astype(dtype)
     tol = 1e-5 if dtype == 'float64' else 2e-2
     kw = dict(mode=mode, dtype=np.dtype(dtype).type, bias=bias, n_components=ncomp)
-    md = GMRFVectorModel(X.copy(), G, sparse=False, **kw)
-    ms = GMRFVectorModel(X.copy(), G, sparse=True, **kw)
+    if backed == 'vector':
+        md = GMRFVectorModel(X.copy(), G, sparse=False, **kw)
+        ms = GMRFVectorModel(X.copy(), G, sparse=True, **kw)
+    else:
+        # the object-backed model: same contract through instances (point clouds)
+        class _Backed(object):
+            def __init__(self, m):
+                self.m, self.precision = m, m.precision
+
+            def mahalanobis_distance(self, q):
+                q = np.asarray(q)
+                if q.ndim == 1:
+                    return self.m.mahalanobis_distance(PointCloud(q.reshape(-1, fpv).copy()))
+                return self.m.mahalanobis_distance([PointCloud(r.reshape(-1, fpv).copy()) for r in q])
+
+            def mean(self):
+                return self.m.mean().as_vector()
+        wrap = lambda: [PointCloud(r.reshape(-1, fpv).copy()) for r in X]
+        md = _Backed(GMRFModel(wrap(), G, sparse=False, **kw))
+        ms = _Backed(GMRFModel(wrap(), G, sparse=True, **kw))
     Pd, Ps = np.asarray(md.precision, dtype=float), np.asarray(ms.precision.toarray(), dtype=float)
     ctx.check_eq('sparse==dense', Ps, Pd, tol=tol)
     ctx.check_eq('symmetric', Pd, Pd.T, tol=tol)
